@@ -1089,9 +1089,16 @@ def run_rules(E, M, tables, tier="quick"):
                     if not ok:
                         e = inst_exc.get((j["self"], f"{sk[0]}.{sk[1]}"))
                         if e and pj["self"] in e.get("writers", []):
-                            used_exc.add((j["self"], f"{sk[0]}.{sk[1]}"))
-                            obl.append({"rule": "R2", "inst": inst + " (instance-level exception, witness checked)", "ok": True})
-                            continue
+                            # the exception covers the audited read sites only: a read of the slot from another function
+                            # (e.g. a new look-up of an unrelated glyph) is not covered
+                            from common import norm_fn
+                            allowed_fns = set(e.get("read_fns", []))
+                            extra = sorted({norm_fn(t["fn"]) for t in ts} - allowed_fns) if allowed_fns else []
+                            if not extra:
+                                used_exc.add((j["self"], f"{sk[0]}.{sk[1]}"))
+                                obl.append({"rule": "R2", "inst": inst + " (instance-level exception, witness checked)", "ok": True})
+                                continue
+                            ts = [t for t in ts if norm_fn(t["fn"]) in extra]
                     obl.append({"rule": "R2", "inst": inst, "ok": ok})
                     if ok and len(samples) < 12 and via and len(via) > 2:
                         samples.append({"rule": "R2", "reader": j["self"], "slot": f"{sk[0]}.{sk[1]}", "writer": pj["self"],
